@@ -23,7 +23,11 @@ Lemma server12_ems k ss h r f :
   f_ems_ext f = ems_requested (c_ems (k_cfg k)) && f_ems f.
 Proof.
   unfold server12. cbv zeta. intro H.
-  rstepn H u0 E. rstepn H suite E0. rstepn H group E1. rstepn H u2 E2. rstepn H tr E3.
+  rstepn H ch E00. destruct ch as [[suite group] ems0]. cbn beta iota in H.
+  unfold hello12_choices in E00. cbv zeta in E00.
+  rstepn E00 u0 E. rstepn E00 suite' E0. rstepn E00 group' E1. rstepn E00 u2 E2.
+  inversion E00; subst suite' group' ems0; clear E00.
+  rstepn H tr E3.
   destruct tr as [[profile echo] peer]. cbn beta iota in H.
   rstepn H proto E4. rstepn H u5 E5.
   destruct (r && h_session h && c_store (k_cfg k)).
@@ -59,7 +63,8 @@ Proof.
   intros Hh Hv Hs Hc.
   pose proof (server12_ems _ _ _ _ _ Hs) as [Em1 Em2].
   apply server12_spec in Hs. apply client12_spec in Hc.
-  destruct Hs as [S1 S2 S3 S4 S5 S5b S6 S7 S7b S7c S8 S9 S9b S10 S11 S12]. destruct Hc as [cl_version0 cl_suite0 cl_group0 cl_sig0 cl_chain0 cl_csig0 cl_srtp0 cl_srtp_none0 cl_mki_server0 cl_alpn0 cl_ems0 cl_ems_required0 cl_cid0 cl_exts0 cl_flags0].
+  pose proof (s12_version _ _ _ _ Hs) as S1. pose proof (s12_srtp _ _ _ _ Hs) as S7b. pose proof (s12_resumed _ _ _ _ Hs) as S12.
+  pose proof (cl_version _ _ _ _ _ _ _ Hc) as cl_version0. pose proof (cl_suite _ _ _ _ _ _ _ Hc) as cl_suite0. pose proof (cl_group _ _ _ _ _ _ _ Hc) as cl_group0. pose proof (cl_sig _ _ _ _ _ _ _ Hc) as cl_sig0. pose proof (cl_chain _ _ _ _ _ _ _ Hc) as cl_chain0. pose proof (cl_csig _ _ _ _ _ _ _ Hc) as cl_csig0. pose proof (cl_srtp _ _ _ _ _ _ _ Hc) as cl_srtp0. pose proof (cl_srtp_none _ _ _ _ _ _ _ Hc) as cl_srtp_none0. pose proof (cl_mki_server _ _ _ _ _ _ _ Hc) as cl_mki_server0. pose proof (cl_alpn _ _ _ _ _ _ _ Hc) as cl_alpn0. pose proof (cl_ems _ _ _ _ _ _ _ Hc) as cl_ems0. pose proof (cl_ems_required _ _ _ _ _ _ _ Hc) as cl_ems_required0. pose proof (cl_cid _ _ _ _ _ _ _ Hc) as cl_cid0. pose proof (cl_exts _ _ _ _ _ _ _ Hc) as cl_exts0. pose proof (cl_flags _ _ _ _ _ _ _ Hc) as cl_flags0.
   unfold client_view, server_view, mirrored. rewrite cl_cid0.
   destruct (cid_pair (decide_cid h (f_cid_ext f) (f_rrc_ext f))) as [[cc sc] rrc]. cbn.
   destruct cl_suite0 as [Q1 _].
@@ -75,6 +80,16 @@ Proof.
     + now destruct (cl_srtp0 Hz).
 Qed.
 
+(* hello verification: the first ClientHello is in no Finished transcript and may have been rewritten on path
+   ([h1] is whatever the server was shown first); the two sides still agree, on the hello that echoes the cookie *)
+Theorem agreement12_first_hello_rewritten ck sk ss cs h1 h2 r f o x p :
+  pion_hello ck h2 -> ems_valid (k_cfg sk) ->
+  server12_verified sk ss h1 h2 r = ROk f -> client12 ck sk cs h2 f = ROk o ->
+  mirrored (client_view h2 o x) (server_view h2 f x p).
+Proof.
+  intros Hh Hv Hs Hc. apply server12_verified_final in Hs. exact (agreement12 _ _ _ _ _ _ _ _ x p Hh Hv Hs Hc).
+Qed.
+
 (* the SRTP master key identifiers: each side reports exactly what the OTHER side sent *)
 Theorem mki_as_sent12 ck sk ss cs h r f o x p :
   server12 sk ss h r = ROk f -> client12 ck sk cs h f = ROk o -> o_srtp o <> 0 ->
@@ -85,7 +100,8 @@ Theorem mki_as_sent12 ck sk ss cs h r f o x p :
     (f_mki_echo f = [] \/ f_mki_echo f = mki).             (* ... which is empty or its own identifier *)
 Proof.
   intros Hs Hc Hn. apply server12_spec in Hs. apply client12_spec in Hc.
-  destruct Hs as [S1 S2 S3 S4 S5 S5b S6 S7 S7b S7c S8 S9 S9b S10 S11 S12]. destruct Hc as [cl_version0 cl_suite0 cl_group0 cl_sig0 cl_chain0 cl_csig0 cl_srtp0 cl_srtp_none0 cl_mki_server0 cl_alpn0 cl_ems0 cl_ems_required0 cl_cid0 cl_exts0 cl_flags0].
+  pose proof (s12_version _ _ _ _ Hs) as S1. pose proof (s12_srtp _ _ _ _ Hs) as S7b. pose proof (s12_resumed _ _ _ _ Hs) as S12.
+  pose proof (cl_version _ _ _ _ _ _ _ Hc) as cl_version0. pose proof (cl_suite _ _ _ _ _ _ _ Hc) as cl_suite0. pose proof (cl_group _ _ _ _ _ _ _ Hc) as cl_group0. pose proof (cl_sig _ _ _ _ _ _ _ Hc) as cl_sig0. pose proof (cl_chain _ _ _ _ _ _ _ Hc) as cl_chain0. pose proof (cl_csig _ _ _ _ _ _ _ Hc) as cl_csig0. pose proof (cl_srtp _ _ _ _ _ _ _ Hc) as cl_srtp0. pose proof (cl_srtp_none _ _ _ _ _ _ _ Hc) as cl_srtp_none0. pose proof (cl_mki_server _ _ _ _ _ _ _ Hc) as cl_mki_server0. pose proof (cl_alpn _ _ _ _ _ _ _ Hc) as cl_alpn0. pose proof (cl_ems _ _ _ _ _ _ _ Hc) as cl_ems0. pose proof (cl_ems_required _ _ _ _ _ _ _ Hc) as cl_ems_required0. pose proof (cl_cid _ _ _ _ _ _ _ Hc) as cl_cid0. pose proof (cl_exts _ _ _ _ _ _ _ Hc) as cl_exts0. pose proof (cl_flags _ _ _ _ _ _ _ Hc) as cl_flags0.
   destruct (cl_srtp0 Hn) as [Y1 [Y2 [Y3 _]]]. rewrite Y1 in Hn.
   destruct (S7b Hn) as [_ [ps [mk [Ho [_ [Hm He]]]]]].
   exists ps, mk. unfold client_view, server_view.
@@ -101,12 +117,13 @@ Theorem chains_as_presented12 ck sk ss cs h r f o x p :
   (f_resumed f = true -> w_peer_chain (client_view h o x) = [] /\ w_peer_chain (server_view h f x p) = []).
 Proof.
   intros Hs Hc. apply server12_spec in Hs. apply client12_spec in Hc.
-  destruct Hs as [S1 S2 S3 S4 S5 S5b S6 S7 S7b S7c S8 S9 S9b S10 S11 S12]. destruct Hc as [cl_version0 cl_suite0 cl_group0 cl_sig0 cl_chain0 cl_csig0 cl_srtp0 cl_srtp_none0 cl_mki_server0 cl_alpn0 cl_ems0 cl_ems_required0 cl_cid0 cl_exts0 cl_flags0].
+  pose proof (s12_version _ _ _ _ Hs) as S1. pose proof (s12_srtp _ _ _ _ Hs) as S7b. pose proof (s12_resumed _ _ _ _ Hs) as S12.
+  pose proof (cl_version _ _ _ _ _ _ _ Hc) as cl_version0. pose proof (cl_suite _ _ _ _ _ _ _ Hc) as cl_suite0. pose proof (cl_group _ _ _ _ _ _ _ Hc) as cl_group0. pose proof (cl_sig _ _ _ _ _ _ _ Hc) as cl_sig0. pose proof (cl_chain _ _ _ _ _ _ _ Hc) as cl_chain0. pose proof (cl_csig _ _ _ _ _ _ _ Hc) as cl_csig0. pose proof (cl_srtp _ _ _ _ _ _ _ Hc) as cl_srtp0. pose proof (cl_srtp_none _ _ _ _ _ _ _ Hc) as cl_srtp_none0. pose proof (cl_mki_server _ _ _ _ _ _ _ Hc) as cl_mki_server0. pose proof (cl_alpn _ _ _ _ _ _ _ Hc) as cl_alpn0. pose proof (cl_ems _ _ _ _ _ _ _ Hc) as cl_ems0. pose proof (cl_ems_required _ _ _ _ _ _ _ Hc) as cl_ems_required0. pose proof (cl_cid _ _ _ _ _ _ _ Hc) as cl_cid0. pose proof (cl_exts _ _ _ _ _ _ _ Hc) as cl_exts0. pose proof (cl_flags _ _ _ _ _ _ _ Hc) as cl_flags0.
   destruct cl_flags0 as [K1 [K2 K3]].
   unfold client_view, server_view.
   destruct (cid_pair (o_cid o)) as [[a b] c]. destruct (cid_pair (decide_cid h (f_cid_ext f) (f_rrc_ext f))) as [[a' b'] c'].
   cbn. rewrite K2. repeat split; try reflexivity.
-  - destruct (S12 H) as [_ [_ [Hc _]]]. now rewrite Hc.
+  - destruct (S12 H) as [_ [_ [Hcc _]]]. now rewrite Hcc.
   - destruct (S12 H) as [_ [_ [_ Hq]]]. now rewrite Hq.
 Qed.
 
@@ -117,8 +134,9 @@ Theorem agreement13 ck sk ss cs h f o x p :
   mirrored (client_view h o x) (server_view h f x p).
 Proof.
   intros Hs Hc. apply server13_spec in Hs.
-  destruct Hs as [S1 S2 S3 S4 S5 S6 S7 S8 S9 S10 S11]. destruct S10 as [R1 [R2 [R3 R4]]].
-  apply (client13_spec ck sk cs h f o S8 R1 R2) in Hc. destruct Hc as [C _]. destruct C as [cl_version0 cl_suite0 cl_group0 cl_sig0 cl_chain0 cl_csig0 cl_srtp0 cl_srtp_none0 cl_mki_server0 cl_alpn0 cl_ems0 cl_ems_required0 cl_cid0 cl_exts0 cl_flags0].
+  pose proof (s13_version _ _ _ _ Hs) as S1. pose proof (s13_srtp _ _ _ _ Hs) as S6. pose proof (s13_alpn _ _ _ _ Hs) as S8. destruct (s13_flags _ _ _ _ Hs) as [R1 [R2 [R3 R4]]].
+  apply (client13_spec ck sk cs h f o S8 R1 R2) in Hc. destruct Hc as [C _].
+  pose proof (cl_version _ _ _ _ _ _ _ C) as cl_version0. pose proof (cl_suite _ _ _ _ _ _ _ C) as cl_suite0. pose proof (cl_group _ _ _ _ _ _ _ C) as cl_group0. pose proof (cl_sig _ _ _ _ _ _ _ C) as cl_sig0. pose proof (cl_chain _ _ _ _ _ _ _ C) as cl_chain0. pose proof (cl_csig _ _ _ _ _ _ _ C) as cl_csig0. pose proof (cl_srtp _ _ _ _ _ _ _ C) as cl_srtp0. pose proof (cl_srtp_none _ _ _ _ _ _ _ C) as cl_srtp_none0. pose proof (cl_mki_server _ _ _ _ _ _ _ C) as cl_mki_server0. pose proof (cl_alpn _ _ _ _ _ _ _ C) as cl_alpn0. pose proof (cl_ems _ _ _ _ _ _ _ C) as cl_ems0. pose proof (cl_ems_required _ _ _ _ _ _ _ C) as cl_ems_required0. pose proof (cl_cid _ _ _ _ _ _ _ C) as cl_cid0. pose proof (cl_exts _ _ _ _ _ _ _ C) as cl_exts0. pose proof (cl_flags _ _ _ _ _ _ _ C) as cl_flags0.
   unfold client_view, server_view, mirrored. rewrite cl_cid0.
   destruct (cid_pair (decide_cid h (f_cid_ext f) (f_rrc_ext f))) as [[cc sc] rrc]. cbn.
   destruct cl_suite0 as [Q1 _].
@@ -137,8 +155,9 @@ Theorem chains_as_presented13 ck sk ss cs h f o x p :
   w_peer_chain (server_view h f x p) = (if f_cert_req f && p then x_client_chain x else []).
 Proof.
   intros Hs Hc. apply server13_spec in Hs.
-  destruct Hs as [S1 S2 S3 S4 S5 S6 S7 S8 S9 S10 S11]. destruct S10 as [R1 [R2 [R3 R4]]].
-  apply (client13_spec ck sk cs h f o S8 R1 R2) in Hc. destruct Hc as [C _]. destruct C as [cl_version0 cl_suite0 cl_group0 cl_sig0 cl_chain0 cl_csig0 cl_srtp0 cl_srtp_none0 cl_mki_server0 cl_alpn0 cl_ems0 cl_ems_required0 cl_cid0 cl_exts0 cl_flags0].
+  pose proof (s13_version _ _ _ _ Hs) as S1. pose proof (s13_srtp _ _ _ _ Hs) as S6. pose proof (s13_alpn _ _ _ _ Hs) as S8. destruct (s13_flags _ _ _ _ Hs) as [R1 [R2 [R3 R4]]].
+  apply (client13_spec ck sk cs h f o S8 R1 R2) in Hc. destruct Hc as [C _].
+  pose proof (cl_version _ _ _ _ _ _ _ C) as cl_version0. pose proof (cl_suite _ _ _ _ _ _ _ C) as cl_suite0. pose proof (cl_group _ _ _ _ _ _ _ C) as cl_group0. pose proof (cl_sig _ _ _ _ _ _ _ C) as cl_sig0. pose proof (cl_chain _ _ _ _ _ _ _ C) as cl_chain0. pose proof (cl_csig _ _ _ _ _ _ _ C) as cl_csig0. pose proof (cl_srtp _ _ _ _ _ _ _ C) as cl_srtp0. pose proof (cl_srtp_none _ _ _ _ _ _ _ C) as cl_srtp_none0. pose proof (cl_mki_server _ _ _ _ _ _ _ C) as cl_mki_server0. pose proof (cl_alpn _ _ _ _ _ _ _ C) as cl_alpn0. pose proof (cl_ems _ _ _ _ _ _ _ C) as cl_ems0. pose proof (cl_ems_required _ _ _ _ _ _ _ C) as cl_ems_required0. pose proof (cl_cid _ _ _ _ _ _ _ C) as cl_cid0. pose proof (cl_exts _ _ _ _ _ _ _ C) as cl_exts0. pose proof (cl_flags _ _ _ _ _ _ _ C) as cl_flags0.
   destruct cl_flags0 as [K1 [K2 K3]].
   unfold client_view, server_view.
   destruct (cid_pair (o_cid o)) as [[a b] c]. destruct (cid_pair (decide_cid h (f_cid_ext f) (f_rrc_ext f))) as [[a' b'] c'].
